@@ -38,6 +38,14 @@ func pureExternal(fn *ssa.Function) bool {
 	if p.Path() == "fmt" {
 		return strings.HasPrefix(n, "Sprint") || n == "Errorf"
 	}
+	if p.Path() == "slices" || p.Path() == "sort" {
+		// in-place mutators are not pure
+		for _, pre := range []string{"Delete", "Sort", "Reverse", "Compact", "Insert", "Replace", "Stable", "Strings", "Ints", "Slice", "Grow", "Clip"} {
+			if strings.HasPrefix(n, pre) {
+				return false
+			}
+		}
+	}
 	if p.Path() == "net/url" {
 		// methods mutating url.Values / URL are handled by specs
 		switch n {
